@@ -364,9 +364,10 @@ PROPS = {
             'InstrSeq::visit / visit_mut: the sequence-level type operand, once, only for multi-value sequences',
             'no recursion among generated impls and hooks: Verus accepts the file without any `decreases` (it rejects recursion without one)',
             'dfs_in_order (unit T, real text of both loop bodies; labelled continues mapped to return values, R4): one instruction step shows the visitor exactly that instruction and either goes on or schedules (resume point, alternative, consequent) and pauses; one iteration of the outer loop preserves  trace + todo(stack) == const ; lemma: with the stack starting at [(start, 0)] and ending empty the trace is exactly the in-order flattening -- Start, every instruction in order, every nested sequence in full right after its owner (consequent first), End -- each exactly once',
+            'dfs_pre_order_mut (unit T, real text of both loop bodies): one step shows the visitor exactly that instruction and schedules the sequences nested in it (as the visitor left it), consequent on top; one iteration traverses the popped sequence completely and exactly once (Start, every instruction in order, End), schedules its nested sequences each once and touches no other sequence; no recursion (the unit would not compile / Verus would demand a decreases clause)',
         ],
         'unclaimed': [
-            'the composition of the two loops of dfs_in_order (`while let Some(..) = stack.pop()`, `for .. in iter().enumerate().skip(index)`: A-iter) and well-foundedness of sequence nesting (A-tree); dfs_pre_order_mut (for over &mut items): not under contract; bounded stand-ins',
+            'the composition of the loops of both drivers (`while let Some(..) = stack.pop()`, `for .. in iter().enumerate().skip(index)`, `for .. in &mut seq.instrs`: A-iter) and well-foundedness of sequence nesting (A-tree); a global exactly-once theorem for dfs_pre_order_mut (its step and iteration contracts are proved, the induction over the worklist is not written): bounded stand-ins',
             'actual call-stack usage at nesting depth 10^5 (only non-recursion is expressible)',
         ],
         'standins': [
